@@ -461,6 +461,12 @@ func (m *Machine) assertProp(c *Term, msg string) {
 	}
 	nc := m.T.Not(c)
 	r, m2 := m.S.CheckWith(nc, m.T.Vars)
+	if m.CrossEvery > 0 && r != Unknown {
+		m.crossCount++
+		if m.crossCount%m.CrossEvery == 0 {
+			m.crossCheck(nc, r)
+		}
+	}
 	switch r {
 	case Sat:
 		m.classify(nc, msg, m2)
